@@ -2,7 +2,10 @@ module verif/harness
 
 go 1.21
 
-require github.com/nextmv-io/nextroute v0.0.0
+require (
+	github.com/nextmv-io/nextroute v0.0.0
+	github.com/nextmv-io/sdk v1.8.0
+)
 
 require (
 	github.com/danielgtaylor/huma v1.14.1 // indirect
@@ -10,7 +13,6 @@ require (
 	github.com/gorilla/schema v1.4.1 // indirect
 	github.com/iancoleman/strcase v0.2.0 // indirect
 	github.com/itzg/go-flagsfiller v1.9.1 // indirect
-	github.com/nextmv-io/sdk v1.8.0 // indirect
 	github.com/xeipuuv/gojsonpointer v0.0.0-20190905194746-02993c407bfb // indirect
 	github.com/xeipuuv/gojsonreference v0.0.0-20180127040603-bd5ef7bd5415 // indirect
 	github.com/xeipuuv/gojsonschema v1.2.0 // indirect
